@@ -57,7 +57,25 @@ func astSkeleton(n *parser.Node) any {
 	// statement-level comprehension (what processStatement looks at): Value is a comprehension node
 	switch n.Type {
 	case parser.NodeAssign, parser.NodeAugAssign, parser.NodeAnnAssign, parser.NodeReturn, parser.NodeExpr:
-		if v, ok := n.Value.(*parser.Node); ok && v != nil {
+		v, _ := n.Value.(*parser.Node)
+		// redundant parentheses and chained assignment are looked through (statementValue in cfg_builder.go, since the repair of F53)
+		for v != nil {
+			if v.Type == parser.NodeType("parenthesized_expression") {
+				var inner *parser.Node
+				for _, c := range v.Children {
+					if c != nil && c.Type != parser.NodeType("(") && c.Type != parser.NodeType(")") {
+						inner = c
+						break
+					}
+				}
+				v = inner
+			} else if v.Type == parser.NodeAssign {
+				v, _ = v.Value.(*parser.Node)
+			} else {
+				break
+			}
+		}
+		if v != nil {
 			if v.Type == parser.NodeListComp || v.Type == parser.NodeDictComp || v.Type == parser.NodeSetComp || v.Type == parser.NodeGeneratorExp {
 				tests := []bool{}
 				for _, c := range v.Children {
